@@ -15,7 +15,8 @@ EXPLANATION = (
     "header before it reads the body and reads exactly annotations_size+data_size; the sender's size check is made on the "
     "payload that is actually packed (after compression) and dominates packing; the length check, the declared-length cursor "
     "advance and the exact-tiling check dominate the payload store; the compression flag is set iff the payload was replaced "
-    "by its compressed form and cleared on decode. Not decided: zlib round trip, all fragmentations (C17), acceptance of "
+    "by its compressed form and cleared on decode; the byte reader underneath returns exactly the requested bytes (shared with C17). "
+    "Not decided: zlib round trip, all fragmentations (C17), acceptance of "
     "arbitrary byte strings as a whole."
 )
 
